@@ -681,17 +681,29 @@ func (z *E6) SetBytes(e []byte) error {
 		return errors.New("invalid buffer size")
 	}
 	offset := 0
-	z.B1.A2.SetBytes(e[offset : offset+sizeOfFp])
+	if err := z.B1.A2.SetBytesCanonical(e[offset : offset+sizeOfFp]); err != nil {
+		return err
+	}
 	offset += sizeOfFp
-	z.B1.A1.SetBytes(e[offset : offset+sizeOfFp])
+	if err := z.B1.A1.SetBytesCanonical(e[offset : offset+sizeOfFp]); err != nil {
+		return err
+	}
 	offset += sizeOfFp
-	z.B1.A0.SetBytes(e[offset : offset+sizeOfFp])
+	if err := z.B1.A0.SetBytesCanonical(e[offset : offset+sizeOfFp]); err != nil {
+		return err
+	}
 	offset += sizeOfFp
-	z.B0.A2.SetBytes(e[offset : offset+sizeOfFp])
+	if err := z.B0.A2.SetBytesCanonical(e[offset : offset+sizeOfFp]); err != nil {
+		return err
+	}
 	offset += sizeOfFp
-	z.B0.A1.SetBytes(e[offset : offset+sizeOfFp])
+	if err := z.B0.A1.SetBytesCanonical(e[offset : offset+sizeOfFp]); err != nil {
+		return err
+	}
 	offset += sizeOfFp
-	z.B0.A0.SetBytes(e[offset : offset+sizeOfFp])
+	if err := z.B0.A0.SetBytesCanonical(e[offset : offset+sizeOfFp]); err != nil {
+		return err
+	}
 
 	return nil
 }
